@@ -7,6 +7,7 @@ mod engine;
 mod kinds;
 mod model;
 mod pt;
+mod refnat;
 mod vhist;
 mod vkinds;
 mod vmodel;
@@ -18,6 +19,7 @@ mod c04;
 mod c05x;
 mod c10;
 mod c11;
+mod c12;
 mod c13;
 mod c16;
 mod c17;
@@ -106,6 +108,7 @@ fn main() {
         "C09" => c09::run(&cfg),
         "C10" => c10::run(&cfg),
         "C11" => c11::run(&cfg),
+        "C12" => c12::run(&cfg),
         "C13" => c13::run(&cfg),
         "C16" => c16::run(&cfg),
         "C17" => c17::run(&cfg),
